@@ -74,6 +74,8 @@ type Unit struct {
 	placedInv map[string]bool
 	unfolded map[string]bool
 	forcedKey *Value
+	assignSetDone bool
+	assignSetVal  map[string]bool
 	mu      sync.Mutex
 }
 
